@@ -33,7 +33,7 @@ for sid in ids:
             res[sid + ":" + prop] = info
     finally:
         subprocess.run("git -C /repo reset -q --hard HEAD && find /repo -name __pycache__ -prune -exec rm -rf {} +", shell=True)
-out = "/verif/seeded/RESULTS.json"
+out = "/verif/seeded/RESULTS.json" if not os.environ.get("VERIF_SEED") else f"/verif/seeded/RESULTS.seed{os.environ['VERIF_SEED']}.json"
 old = json.load(open(out)) if os.path.exists(out) else {}
 old.update(res)
 json.dump(old, open(out, "w"), indent=1, sort_keys=True)
